@@ -1,4 +1,4 @@
-(** The reference semantics [CodeSem.code_sem] of a design of fragment F1 in
+(** The reference semantics [CodeSem.code_sem] of a design of fragment F2 in
     closed form, and a generic lemma that establishes [Sem.chunks_ok] from a
     decomposition of the trial sequence into blocks.  Proof file. *)
 From Coq Require Import ZArith List Bool Arith Lia.
@@ -33,7 +33,7 @@ Qed.
 
 Section F0S.
 Variable fb : flat.
-Hypothesis HF : frag1 fb = true.
+Hypothesis HF : frag2 fb = true.
 
 Local Notation c := (the_crossing fb).
 Local Notation n := (length (fl_design fb)).
@@ -98,26 +98,25 @@ Proof.
   unfold f0_cprod, allowed_combos. apply filter_ext. intros ls. rewrite f0_compile_not_excluded. reflexivity.
 Qed.
 
-Lemma f0_compile_level_weight f l : In f c -> Compile.level_weight fb f l = 1.
+Lemma f0_compile_level_weight f l : Compile.level_weight fb f l = level_weight_nat fb f l.
 Proof.
-  intros Hf. unfold Compile.level_weight. destruct (factor_at fb f) as [fd|] eqn:E; [|reflexivity].
-  destruct (nth_error (ff_levels fd) l) as [lv|] eqn:El; [|reflexivity].
-  apply (f0_unit fb (f0_unpack fb HF) f lv Hf). unfold levels_of. rewrite E. eapply nth_error_In. exact El.
+  unfold Compile.level_weight, level_weight_nat, levels_of. destruct (factor_at fb f) as [fd|]; [reflexivity|].
+  destruct l; reflexivity.
 Qed.
 
-Lemma f0_compile_combination_weight ls : Compile.combination_weight fb (combine c ls) = 1.
+Lemma f0_compile_combination_weight di : Compile.combination_weight fb di = combo_weight fb di.
 Proof.
   unfold Compile.combination_weight.
-  assert (G : forall (di : list (nat * nat)) acc, (forall p, In p di -> In (fst p) c) ->
-              fold_left (fun k p => k * Compile.level_weight fb (fst p) (snd p)) di acc = acc).
-  { induction di as [|p t IH]; intros acc H; cbn; [reflexivity|].
-    rewrite f0_compile_level_weight by (apply H; left; reflexivity). rewrite Nat.mul_1_r.
-    apply IH. intros x Hx. apply H. right. exact Hx. }
-  apply G. intros p Hp. eapply in_combine_fst. exact Hp.
+  assert (G : forall (di : list (nat * nat)) acc,
+              fold_left (fun k p => k * Compile.level_weight fb (fst p) (snd p)) di acc = acc * combo_weight fb di).
+  { induction di0 as [|p t IH]; intros acc; cbn [fold_left combo_weight fold_right]; [lia|].
+    rewrite IH, f0_compile_level_weight. fold (combo_weight fb t). lia. }
+  rewrite G. lia.
 Qed.
 
 Definition f0_crossing : dcrossing :=
-  {| c_factors := c; c_first := 0; c_chunk := q; c_mult := map (fun ls => (ls, 1)) prod |}.
+  {| c_factors := c; c_first := 0; c_chunk := f0_C fb;
+     c_mult := map (fun ls => (ls, f0_cw fb ls * the_weight fb)) prod |}.
 
 Lemma map_snd_combine {A B} (xs : list A) (ys : list B) : length xs = length ys -> map snd (combine xs ys) = ys.
 Proof.
@@ -129,15 +128,15 @@ Lemma f0_sem_crossings : s_crossings S0 = [f0_crossing].
 Proof.
   unfold code_sem, CodeSem.code_sem. cbn [s_crossings]. rewrite (f0_crossings fb (f0_unpack fb HF)).
   cbn [CodeSem.code_crossings]. f_equal. unfold CodeSem.code_crossing, f0_crossing.
-  assert (Hw : Compile.crossing_weight fb c = 1).
+  assert (Hw : Compile.crossing_weight fb c = the_weight fb).
   { unfold Compile.crossing_weight. rewrite (f0_crossings fb (f0_unpack fb HF)). cbn [Compile.crossing_ind].
     rewrite list_nat_eqb_refl. rewrite (f0_weights fb (f0_unpack fb HF)). reflexivity. }
   assert (Hp : Compile.preamble_size fb 0 = 0).
   { unfold Compile.preamble_size, post_preamble_size.
     rewrite (f0_preambles fb (f0_unpack fb HF)), (f0_alpre fb (f0_unpack fb HF)). destruct (fl_alignment fb); reflexivity. }
-  rewrite Hw, Hp. rewrite (f0_sizes fb (f0_unpack fb HF)). cbn [nth]. rewrite Nat.mul_1_r.
+  rewrite Hw, Hp. rewrite (f0_sizes fb (f0_unpack fb HF)). cbn [nth]. fold (f0_C fb).
   f_equal. rewrite f0_compile_combos. rewrite map_map. apply map_ext_in. intros ls Hls.
-  rewrite f0_compile_combination_weight, f0_sustain_of. cbn [Nat.mul].
+  rewrite f0_compile_combination_weight, f0_sustain_of. rewrite Nat.mul_1_r. fold (f0_cw fb ls).
   rewrite map_snd_combine; [reflexivity|]. rewrite (product_length_elem _ _ (f0_cprod_in_prod fb HF ls Hls)). rewrite map_length. reflexivity.
 Qed.
 
